@@ -14,9 +14,13 @@ import (
 
 // Hooks are the per-property oracles evaluated after every built block.
 type Hooks struct {
-	Imports  int  // number of independent imports (re-executions) of every built block (C06)
-	Supply   bool // C07
-	Links    bool // C08
+	Imports int  // number of independent imports (re-executions) of every built block (C06)
+	Supply  bool // C07
+	Links   bool // C08
+	// Warm: every explored path is also built block by block on ONE node that is never reopened (warm caches from
+	// genesis on); its head must equal the head of the explored lineage, whose nodes are reopened from a database
+	// copy before every block (cold caches).  Execution must not depend on cache contents (C06).
+	Warm     bool
 	PerBlock func(h *Hist, op string, b *Built, pre *Node) []mc.Violation
 }
 
@@ -30,6 +34,7 @@ type Hist struct {
 	Hooks  Hooks
 
 	Node    *Node
+	Path    []string // block ops applied since Reset (without the prefix)
 	Txs     map[common.Hash]TxInfo
 	Genesis *big.Int // supply at genesis
 	viols   []mc.Violation
@@ -43,7 +48,7 @@ func (h *Hist) Reset() {
 	}
 	h.Node = NewNode(h.F)
 	h.Txs = map[common.Hash]TxInfo{}
-	h.viols, h.dead = nil, false
+	h.viols, h.dead, h.Path = nil, false, nil
 	s, err := SupplyOf(h.Node, h.Txs)
 	if err != nil {
 		panic(err)
@@ -76,6 +81,7 @@ func (h *Hist) Fork() mc.Forker {
 		c.Txs[k] = v
 	}
 	c.viols = nil
+	c.Path = append([]string{}, h.Path...)
 	return &c
 }
 
@@ -203,6 +209,10 @@ func (h *Hist) Apply(op string) string {
 	ob := fmt.Sprintf("#%d txs=%d/%d status=%s", built.Block.NumberU64(), len(built.Included), len(txs), statuses(built))
 	if h.inPre {
 		return ob
+	}
+	h.Path = append(h.Path, op)
+	if h.Hooks.Warm {
+		h.warmReplay(built)
 	}
 	// C06: every independent import of the block succeeds unchanged
 	for i := 0; i < h.Hooks.Imports; i++ {
@@ -346,6 +356,50 @@ func (h *Hist) BuildOnly(op string) (*types.Block, error) {
 		return nil, err
 	}
 	return b.Block, nil
+}
+
+// warmReplay builds prefix + path on one never-reopened node and compares heads.
+func (h *Hist) warmReplay(built *Built) {
+	w := &Hist{F: h.F, R: h.R, Node: NewNode(h.F)}
+	defer w.Node.Close()
+	var err error
+	msg, where := mc.CatchStack(func() {
+		for _, op := range append(append([]string{}, h.Prefix...), h.Path...) {
+			if _, err = w.BuildOnly(op); err != nil {
+				return
+			}
+		}
+	})
+	h.R.Count("warm_replays", 1)
+	switch {
+	case msg != "":
+		h.fail(fmt.Sprintf("builder panics on a node that was never reopened at %s", where), msg)
+	case err != nil:
+		h.fail("builder fails on a node that was never reopened: "+normErr(err.Error()), err.Error())
+	case w.Node.Head().Hash() != built.Block.Hash():
+		a, b := w.Node.Head().Header(), built.Block.Header()
+		var d []string
+		if a.Root != b.Root {
+			d = append(d, "state root")
+		}
+		if a.ValRoot != b.ValRoot {
+			d = append(d, "validator root")
+		}
+		if a.StakingRoot != b.StakingRoot {
+			d = append(d, "staking root")
+		}
+		if a.ReceiptHash != b.ReceiptHash {
+			d = append(d, "receipt root")
+		}
+		if a.GasUsed != b.GasUsed {
+			d = append(d, "gas used")
+		}
+		if len(d) == 0 {
+			d = append(d, "other header field")
+		}
+		h.fail("execution depends on cache contents: a node that stayed up and a node reopened from its database build different blocks ("+strings.Join(d, ", ")+")",
+			fmt.Sprintf("path %v: warm head %s cold head %s", h.Path, a.Hash().Hex(), b.Hash().Hex()))
+	}
 }
 
 func statuses(b *Built) string {
